@@ -187,6 +187,33 @@ Proof.
   apply String.eqb_eq in E1, E2. now subst.
 Qed.
 
+(* ------------------------------------------------------------------ where a compiled filter is kept and consulted *)
+(* The Where() expression of a rule is compiled into ONE filter that is consulted once per match (handleMatch; handleCommentMatch for
+   comment rules); its operands are consulted by the three combinator closures, left to right. go2coq lists every struct field of
+   package ruleguard that holds a compiled filter and every call of a compiled filter's function.  A second filter kept on the rule
+   (an operand pulled out of the expression to be asked first, per file or per node) or a consultation outside the match handlers
+   would be a further entry: whether a part of the expression may decide alone depends on the operators above it (see
+   FilterAlgebra / FilterChains: only a failing operand under `&&` all the way up decides). *)
+Definition doc_filter_consults : list (string * string) := [
+  ("field", "goRule.filter matchFilter");
+  ("handleCommentMatch", "rule.base.filter.fn(&rr.filterParams)");
+  ("handleMatch", "rule.filter.fn(&rr.filterParams)");
+  ("makeAndFilter", "lhs.fn(params)"); ("makeAndFilter", "rhs.fn(params)");
+  ("makeNotFilter", "x.fn(params)");
+  ("makeOrFilter", "lhs.fn(params)"); ("makeOrFilter", "rhs.fn(params)")
+].
+
+Definition filter_consults_okb (gen : list (string * string)) : bool :=
+  Nat.eqb (List.length gen) (List.length doc_filter_consults) && forallb (fun p => existsb (pair_eqb2 p) doc_filter_consults) gen.
+
+Lemma filter_consults_spec gen : filter_consults_okb gen = true -> forall fn x, In (fn, x) gen -> In (fn, x) doc_filter_consults.
+Proof.
+  unfold filter_consults_okb. intros H fn x Hin. apply andb_prop in H as [_ H].
+  rewrite forallb_forall in H. specialize (H _ Hin). apply existsb_exists in H as [[fn' x'] [Hd He]].
+  unfold pair_eqb2 in He. cbn in He. apply andb_prop in He as [E1 E2].
+  apply String.eqb_eq in E1, E2. now subst.
+Qed.
+
 (* ------------------------------------------------------------------ a value remembered per type *)
 (* What such a table would have to be keyed by. Distinct Go types can PRINT alike: `type T struct{..}` declared in two functions
    of a file, a local type that shadows a package-level one, arrays / structs / pointers of such types. A type of the model is
